@@ -44,10 +44,11 @@ class P(vlib.Prop):
         "ExpandApk / Split / ResolveApk: a gzip member is abstracted to one of six kinds (signature tar, other tar, gzip of nothing, corrupt gzip, end marker only, no tar); what the gzip and tar readers do inside a member is the library's business (compared on every sequence of up to 4 members, 1555 x 2 in thorough)",
         "sortTarHeaders: Formats.sort_headers (shared with C16) is the function after fix f716198 (entries that clean to '.' filtered first); sort_headers_raw is the former function and only appears in statements labelled hypothetical",
         "ImageConfiguration.Load: a file is its marker and its include field (or undecodable); the file tree has no symbolic links; os.Stat / os.ReadFile are the model's path walk (a name is looked up in an existing directory, '..' of the root is the root)",
+        "the bound on the tar-entry loops is conditional on archive/tar's contract (an entry costs at least its 512-byte header block; an error is repeated): stated as the hypothesis `consumes` of the theorem and probed on 700 hostile streams per run, not proved of the library",
         "RemoveLabel, parseAnnotations, parseAlpineVersion, fetchOffline, installBusyboxLinks are modelled and tied to the source by pinned site lists / guards / regex group counts / loop shape, but not run against the model (not importable or behind network)",
         "index / slice expressions and length guards of the transcribed functions are read from the source with local names erased and pinned by c15_sites_pinned: an edit that adds or changes one breaks the theorem",
     )
-    level_text = ("71 theorems, all closed. For ALL inputs the models, written with checked slicing / indexing, return a result or an error, never Panic and never out of fuel: the line-oriented readers "
+    level_text = ("75 theorems, all closed. For ALL inputs the models, written with checked slicing / indexing, return a result or an error, never Panic and never out of fuel: the line-oriented readers "
                   "(ParsePackageIndex, ParseInstalled + parseInstalledPerms, UserFile.Load, GroupFile.Load, readReleaseData), ParseVersion / ResolvePackageNameVersionPin (group counts of the source's "
                   "regexes), cachedPackage, checksumFromHeader (three copies), the '@tag url' splitter of GetRepositoryIndexes (with a UTF-8 aware model of strings.Fields whose 'no empty field' contract is "
                   "a lemma), unify's constraint splitter (IndexAny result in range), ExpandApk's section indices for EVERY number of gzip members (table read from the source's switch, plus the member loop: "
@@ -60,6 +61,7 @@ class P(vlib.Prop):
                   "include path; relative includes; since fix 43ae291 the resolved paths being loaded are remembered) returns on EVERY tree within |files|+2 loads (c15_include_load_terminates_on_trees, c15_include_chain_fuel_bound), "
                   "answers every request that reaches a cycle of resolved paths with an error whatever the spellings (c15_include_cycle_is_error, five spelled trees) and changed nothing where the former loader returned. "
                   "tarfs FS.open (members of an indexed control / data section opened by name) ends on EVERY archive index within maxHops+2 calls, both link kinds raising the hop counter (increments, limit and test read from the source: c15_tarfs_open_terminates, c15_tarfs_hops_pinned). "
+                  "The twelve loops over tar entries goextract finds by shape under pkg/ (every error of Next leaves the loop: pinned) end within n/512+1 turns for EVERY reader that hands over an entry only after its 512-byte header (c15_tar_loops_terminate, c15_tar_loop_turns_bounded; the hypothesis is archive/tar's contract, probed on the hostile corpus). "
                   "Hypothetical statements about the former shapes are kept and labelled so (c15_sort_headers_before_fix_hypothetical, c15_include_before_fix_*_hypothetical: the recursion that did not end, findings C15-F4 and C15-F6, both repaired). "
                   "Refuted, API-only shapes with no caller in apko: unify without architectures, groupByOriginAndSize with MinInt64, RepoAbbr on a URI without '/'.")
     level_note = ("partial: proof for the modelled readers only; gzip/tar/yaml/json/ini decoding inside Split, ExpandApk, IndexFromArchive, ParsePackage, lock.FromFile, the YAML loader and baseimg.New is "
